@@ -188,4 +188,13 @@ PROPS = {
                "cases = (1..8 regions each with length, contents, clone count, which copy is sent; padding; receiver process; second hop); non-trivial = some length is not a multiple of the page size, or >=2 regions, or a clone was sent; distinct = distinct (build, canonical JSON)",
                exhaustive="lengths {0,1,2,page-1,page,page+1,2page-1,2page,2page+1,3page+7} x {stream, fill 0, fill 0xA5} x {same process, forked receiver}"),
     ),
+    "C18": dict(
+        jobs=lambda tier: [dict(build="asan", params=dict({"sndbuf": str(sb)} if sb else {}, cases="1200" if tier == "quick" else "30000"), shards=6 if tier == "quick" else 8, timeout=900 if tier == "quick" else 7200)
+                           for sb in ((4096, 4100, 0) if tier == "quick" else (4096, 4097, 4100, 8192, 65536, 0))],
+        meta=M("exploration",
+               "property-based testing under AddressSanitizer with a poisoning allocator: the generated/enumerated message shapes of C01, C04, C05, C13 and C15 plus truncated transfers and platform-level zero/odd-length regions, executed in an ASan build of harness + crate",
+               "The harness and the crate are compiled with -Zsanitizer=address; ASan's own recv/recvmsg interceptors stay active (only the send side is interposed) and a global allocator wrapper fills every fresh allocation with 0xCD, a byte payloads avoid, so bytes 'received' but never written by the transport show up as content mismatches. Boundary lengths per reported buffer size, 0..63 mixed attachments, region lengths around page boundaries, ENOBUFS-shrunk fragments, counts around the descriptor capacity, senders killed mid-message and platform-level zero-length regions are run; any sanitizer report or abort of the worker is reported as a violation with the case in flight as replay file, and all functional oracles of the source properties apply.",
+               "MemorySanitizer is not used (false positive in is_socket/fstat on the unchanged tree); the recv side is not interposed in this build, so cases keep the sending handle alive while receiving to stay clear of the kernel's end-of-file race.",
+               "cases = union of the C01/C04/C05/C13/C15 case types + zero/odd-length platform regions + truncated transfers; non-trivial = the source property's rule (length within +/-16 of a boundary, >=32 attachments, odd/zero-length region, retry-shrunk fragment, truncated transfer); distinct = distinct (params, canonical JSON)"),
+    ),
 }
